@@ -920,7 +920,9 @@ pub fn c07(thorough: bool, seed: u64) -> CheckOutput {
         let handles: Vec<_> = (0..n_proc)
             .map(|k| {
                 let mut cmd = Command::new(&exe);
-                cmd.arg("child").arg("c07").arg(seed.to_string()).arg(n_cases.to_string());
+                // child k runs the list in its own order (k = 0: as listed): a result may depend on
+                // nothing but its own configuration and entropy, in particular not on process history
+                cmd.arg("child").arg("c07").arg(seed.to_string()).arg(n_cases.to_string()).arg(k.to_string());
                 cmd.env("TZ", ["UTC", "Asia/Tokyo", "America/New_York", "Pacific/Chatham"][k % 4]);
                 cmd.env("PFV_NONCE", format!("{}", k));
                 cmd.current_dir(if k % 2 == 0 { "/" } else { "/tmp" });
@@ -951,7 +953,7 @@ pub fn c07(thorough: bool, seed: u64) -> CheckOutput {
                     continue;
                 }
                 if let Some(i) = (0..list.len()).find(|&i| list[i] != reference[i]) {
-                    let msg = format!("separately spawned process {} produced different bytes for case {}", k, i);
+                    let msg = format!("separately spawned process {} (own case order) produced different bytes for case {}", k, i);
                     acc.violate(Violation {
                         property: "C07".into(),
                         signature: format!("C07:process:P{}", cases[i].proto),
@@ -962,6 +964,48 @@ pub fn c07(thorough: bool, seed: u64) -> CheckOutput {
             }
         }
     }
+    // isolation: a process that generates exactly one case must agree with the process that
+    // generated hundreds of other cases before it
+    let iso: Vec<usize> = (0..cases.len()).step_by((cases.len() / if thorough { 96 } else { 36 }).max(1)).collect();
+    let iso_acc = par_run(
+        iso.len(),
+        Acc::new,
+        |k, acc| {
+            let i = iso[k];
+            let out = Command::new(&exe)
+                .arg("child")
+                .arg("c07")
+                .arg(seed.to_string())
+                .arg(n_cases.to_string())
+                .arg("0")
+                .arg(i.to_string())
+                .stdout(Stdio::piped())
+                .stderr(Stdio::null())
+                .output();
+            acc.evaluations += 1;
+            match out {
+                Ok(o) if o.status.success() => {
+                    let got = unhex(String::from_utf8_lossy(&o.stdout).lines().next().unwrap_or(""));
+                    acc.count("isolated_single_case_processes", 1);
+                    if got != reference[i] {
+                        let msg = format!(
+                            "a fresh process generating only case {} returned different bytes than the process that had generated other cases before it (process history influences the output)",
+                            i
+                        );
+                        acc.violate(Violation {
+                            property: "C07".into(),
+                            signature: format!("C07:history:P{}", cases[i].proto),
+                            message: format!("{} [{}]", msg, cases[i].short()),
+                            replay: json!({"kind": "case", "property": "C07", "config": cases[i].to_json(), "message": msg, "witness": {"mode": "isolated-process", "case_index": i}}),
+                        });
+                    }
+                }
+                _ => acc.inconclusive.push(format!("isolated child for case {} failed", i)),
+            }
+        },
+        |a, b| a.merge(b),
+    );
+    acc.merge(iso_acc);
     // CLI batch under different rayon widths (needs the built CLI)
     if let Ok(cli) = std::env::var("PFV_CLI") {
         let widths = ["1", "2", "3", "16"];
@@ -1029,7 +1073,7 @@ pub fn c07(thorough: bool, seed: u64) -> CheckOutput {
     }
     CheckOutput {
         acc,
-        rule: "cases = configurations from the full matrix (both entropy modes, a third with 200..500 opcodes for memo/alias traffic); each is generated twice on the main thread, once on each of 16 concurrent threads (own shuffled order, random yields/sleeps), once in each of >= 8 separately spawned processes (different TZ / cwd, fresh ASLR and hash seeds), and CLI batch directories are compared across RAYON_NUM_THREADS in {1,2,3,16}; full bytes are compared; distinct = distinct reference outputs; non-trivial = output defines >= 2 memo keys and executes a GET".into(),
+        rule: "cases = configurations from the full matrix (both entropy modes, a third with 200..500 opcodes for memo/alias traffic); each is generated twice on the main thread, once on each of 16 concurrent threads (own shuffled order, random yields/sleeps), once in each of >= 8 separately spawned processes (different TZ / cwd, fresh ASLR and hash seeds, each process running the list in its own order), once in a fresh process that generates nothing else (a sample of cases: no dependence on process history), and CLI batch directories are compared across RAYON_NUM_THREADS in {1,2,3,16}; full bytes are compared; distinct = distinct reference outputs; non-trivial = output defines >= 2 memo keys and executes a GET".into(),
         extra: json!({"threads": threads, "processes": n_proc}),
         assumptions: vec!["schedules are sampled, not enumerated; wall-clock independence is covered only by runs happening at different times".into()],
         exhaustive: None,
@@ -1044,12 +1088,31 @@ pub fn child_main(args: &[String]) -> i32 {
             quiet_panics();
             let seed: u64 = args[1].parse().unwrap();
             let n: usize = args[2].parse().unwrap();
+            let order_seed: u64 = args.get(3).and_then(|s| s.parse().ok()).unwrap_or(0);
+            let only: Option<usize> = args.get(4).and_then(|s| s.parse().ok());
             let cases = c07_cases(seed, n);
             let out = std::io::stdout();
             let mut o = out.lock();
             use std::io::Write;
-            for c in &cases {
-                writeln!(o, "{}", hex(&run_bytes(c))).unwrap();
+            if let Some(i) = only {
+                // isolation: this process generates exactly one case
+                writeln!(o, "{}", hex(&run_bytes(&cases[i]))).unwrap();
+                return 0;
+            }
+            let mut order: Vec<usize> = (0..cases.len()).collect();
+            if order_seed != 0 {
+                let mut rng = Rng::new(mix(seed, order_seed));
+                for i in (1..order.len()).rev() {
+                    let j = rng.below(i as u64 + 1) as usize;
+                    order.swap(i, j);
+                }
+            }
+            let mut results: Vec<Vec<u8>> = vec![Vec::new(); cases.len()];
+            for &i in &order {
+                results[i] = run_bytes(&cases[i]);
+            }
+            for r in &results {
+                writeln!(o, "{}", hex(r)).unwrap();
             }
             0
         }
